@@ -52,6 +52,11 @@ func (x *Exec) callCommon(fr *Frame, st *State, instr *ssa.Call, cc *ssa.CallCom
 		ins = instr
 	}
 	resT := resultType(cc)
+	for _, a := range args {
+		if a.Ptr != nil && a.Ptr.Kind == PLoc {
+			x.boxEsc = true // address of a boxed local handed to a callee
+		}
+	}
 	if cc.IsInvoke() {
 		return x.invoke(fr, st, ins, cc, args, fnv, resT)
 	}
@@ -350,7 +355,11 @@ func (x *Exec) applyEff(st *State, eff *Effects) {
 	if eff.Top {
 		x.havocAll(st)
 		if eff.Locks {
-			x.havocLocks(st)
+			if x.lockStateOn() {
+				x.assumed["lock typestate: callees leave every mutex in the state they found it (unless their contract says otherwise)"] = true
+			} else {
+				x.havocLocks(st)
+			}
 		}
 		return
 	}
@@ -358,7 +367,11 @@ func (x *Exec) applyEff(st *State, eff *Effects) {
 		x.havocClassPrefix(st, c)
 	}
 	if eff.Locks {
-		x.havocLocks(st)
+		if x.lockStateOn() {
+			x.assumed["lock typestate: callees leave every mutex in the state they found it (unless their contract says otherwise)"] = true
+		} else {
+			x.havocLocks(st)
+		}
 	}
 }
 
@@ -369,6 +382,10 @@ func (x *Exec) havocLocks(st *State) {
 // havocClassPrefix havocs every known leaf class of the given class prefix and remembers the
 // prefix so that leaves first touched later are fresh as well.
 func (x *Exec) havocClassPrefix(st *State, prefix string) {
+	if x.isImmutable(prefix) {
+		x.assumed["field "+prefix+" is immutable after construction (option immutable)"] = true
+		return
+	}
 	found := false
 	for c, s := range x.classSort {
 		if c == prefix || strings.HasPrefix(c, prefix+"#") || strings.HasPrefix(c, prefix+".") {
@@ -720,6 +737,17 @@ func (x *Exec) special(fr *Frame, st *State, ins ssa.Instruction, callee *ssa.Fu
 				h := x.heapGet(st, "g:"+nm, tb.Array(tb.BV(64), tb.BV(64)))
 				return Val{T: resT, L: []*Term{tb.Select(h, ref)}}, true
 			}
+		case "nolocks":
+			if isSpecBody(callee) {
+				h := x.heapGet(st, "g:held", tb.Array(tb.BV(64), tb.Bool))
+				return Val{T: resT, L: []*Term{tb.Eq(h, tb.ConstArray(tb.Array(tb.BV(64), tb.Bool), tb.False))}}, true
+			}
+		case "onlyheld":
+			if isSpecBody(callee) {
+				ref := x.lockRef(args[0])
+				h := x.heapGet(st, "g:held", tb.Array(tb.BV(64), tb.Bool))
+				return Val{T: resT, L: []*Term{tb.Eq(h, tb.Store(tb.ConstArray(tb.Array(tb.BV(64), tb.Bool), tb.False), ref, tb.True))}}, true
+			}
 		case "atomicDrop":
 			if isSpecBody(callee) {
 				h := x.heapGet(st, "g:adrop", tb.Array(tb.BV(64), tb.BV(64)))
@@ -802,6 +830,14 @@ func (x *Exec) special(fr *Frame, st *State, ins ssa.Instruction, callee *ssa.Fu
 		x.heapSet(st, bytesClass, tb.Store(H, b.L[0], h))
 		return Val{T: resT}, true
 	case "(*sync.Mutex).Lock", "(*sync.RWMutex).Lock", "(*sync.RWMutex).RLock":
+		if x.noLockHavoc(fr.fn) && x.lockStateOn() {
+			// typestate only: held/not held is tracked, the heap is not exposed to other goroutines
+			ref := x.lockRef(args[0])
+			h := x.heapGet(st, "g:held", tb.Array(tb.BV(64), tb.Bool))
+			x.addObl(fr, st, "lock", ins, "", tb.Not(tb.Select(h, ref)))
+			x.heapSet(st, "g:held", tb.Store(h, ref, tb.True))
+			return Val{T: resT}, true
+		}
 		if x.noLockHavoc(fr.fn) {
 			x.assumed["locks of package "+pkgOf(fr.fn)+" are not modelled: no concurrent mutation of a Message while it is used (option nolockhavoc)"] = true
 			return Val{T: resT}, true
@@ -819,7 +855,7 @@ func (x *Exec) special(fr *Frame, st *State, ins ssa.Instruction, callee *ssa.Fu
 		x.heapSet(st, "g:held", tb.Store(h, ref, tb.True))
 		return Val{T: resT}, true
 	case "(*sync.Mutex).Unlock", "(*sync.RWMutex).Unlock", "(*sync.RWMutex).RUnlock":
-		if x.noLockHavoc(fr.fn) {
+		if x.noLockHavoc(fr.fn) && !x.lockStateOn() {
 			return Val{T: resT}, true
 		}
 		ref := x.lockRef(args[0])
@@ -1057,6 +1093,8 @@ func ssaConstString(fr *Frame, v Val) (string, bool) {
 	}
 	return "", false
 }
+
+func (x *Exec) lockStateOn() bool { return x.unit != nil && x.unit.C.LockState }
 
 func (x *Exec) noLockHavoc(fn *ssa.Function) bool {
 	for fn.Parent() != nil {
